@@ -83,6 +83,14 @@ def gen_project(rng, idx, W, min_occ):
             fb.add("import os")
         else:
             fb.add("// Generated module %d" % fresh())
+            if fb.lang == "ts" and rng.random() < 0.5:
+                # a multi-line type declaration (its members are declarations, not statements; every member name is unique): whatever a file
+                # declares must not influence what is found in other files
+                t_id = fresh()
+                fb.add(rng.choice(["interface Shape_%d {", "export interface Shape_%d {", "type Shape_%d = {"]) % t_id)
+                for _ in range(rng.randint(2, 14)):
+                    fb.add("  field_%d: number;" % fresh())
+                fb.add("}")
         occs = per_file.get(fi, [])
         rng.shuffle(occs)
         nfunc = max(1, len(occs)) + rng.randint(0, 1)
